@@ -109,11 +109,6 @@ func (core *JApiCore) processKeyword(lexeme scanner.Lexeme) *jerr.JApiError {
 
 	keyword := lexeme.Value().String()
 	coords := coordsFromLexeme(lexeme)
-	if !core.scannersStack.Empty() && keyword == directive.Jsight.String() {
-		return core.japiError(
-			fmt.Sprintf("%s %q", jerr.IncludeDirectiveErr, keyword),
-			coords.Begin())
-	}
 
 	return core.setCurrentDirective(keyword, coords)
 }
@@ -212,6 +207,10 @@ func (core *JApiCore) setCurrentDirective(keyword string, keywordCoords directiv
 
 	if _, ok := core.bannedDirectives[de]; ok {
 		return core.japiError(fmt.Sprintf("%s (%s)", jerr.DirectiveNotAllowed, de.String()), keywordCoords.Begin())
+	}
+
+	if de == directive.Jsight && !core.scannersStack.Empty() {
+		return core.japiError(fmt.Sprintf("%s %q", jerr.IncludeDirectiveErr, keyword), keywordCoords.Begin())
 	}
 
 	d := directive.NewWithCallStack(de, keywordCoords, core.scannersStack.ToDirectiveIncludeTracer())
